@@ -206,15 +206,37 @@ func NewTicker(d Duration) *Ticker {
 
 func (t *Ticker) arm() {
 	t.live = true
-	t.h = simrt.AddTimer(t.period, "ticker", func() {
-		select {
-		case t.c <- simrt.Epoch.Add(simrt.Now()):
-		default: // slow receiver: the tick is dropped
-			simrt.Probe("ticker_tick_dropped")
+	t.armAt(simrt.Now() + Duration(t.period))
+}
+
+// armAt schedules the tick that is due at the simulated time when. As in the runtime, the value sent is
+// "when it was due + the delay between noticing the expiry and stamping the value" (zero unless the
+// tick-lag fault is on), and the next tick is due one period after this one was due, skipping the periods
+// that had already passed when the expiry was noticed.
+func (t *Ticker) armAt(when Duration) {
+	d := when - simrt.Now()
+	if d < 0 {
+		d = 0
+	}
+	t.h = simrt.AddTimer(Duration(d), "ticker", func() {
+		noticed := simrt.Now()
+		delta := noticed - when
+		next := when + Duration(t.period)*(1+delta/Duration(t.period))
+		send := func() {
+			select {
+			case t.c <- simrt.Epoch.Add(Duration(simrt.Now() - delta)):
+			default: // slow receiver: the tick is dropped
+				simrt.Probe("ticker_tick_dropped")
+			}
+			if t.live {
+				t.armAt(next)
+			}
 		}
-		if t.live {
-			t.arm()
+		if lag := simrt.DrawTickLag(t.period); lag > 0 {
+			t.h = simrt.AddTimer(lag, "ticker-lag", send)
+			return
 		}
+		send()
 	})
 }
 
